@@ -21,7 +21,7 @@ extern "C" int __lsan_do_recoverable_leak_check();
 using namespace vh;
 
 namespace {
-struct Tally { long long factory_calls = 0, strings = 0, string_bytes = 0, pools = 0, printed_bytes = 0, units = 0, regions = 0, steps = 0; };
+struct Tally { long long threshold = 0, factory_calls = 0, strings = 0, string_bytes = 0, pools = 0, printed_bytes = 0, units = 0, regions = 0, steps = 0; };
 
 // the workload of one Lexicon life; everything it allocates dies with this scope
 void one_life(std::uint64_t seed, int flavour, Tally& T)
@@ -66,6 +66,10 @@ void one_life(std::uint64_t seed, int flavour, Tally& T)
          w.assign(n, char('A' + n % 26)); lex.get_string(widen(w)); lex.get_string(widen(w)); T.strings += 2; T.string_bytes += (long long)n;
          lex.get_string(widen("after" + std::to_string(n)));
       }
+      // every length around the allocator's two thresholds (oversize test at 65536 bytes; byte capacity of a pool 2^20 less
+      // the 8-byte length field), shared out over the lives by `flavour`
+      for (std::size_t n = 65536 - 24; n <= 65536 + 40; ++n) if (n % 16 == std::size_t(flavour / 3 + ctx().worker * 7) % 16) { w.assign(n, char('a' + n % 26)); lex.get_string(widen(w)); ++T.strings; T.string_bytes += (long long)n; ++T.threshold; }
+      for (std::size_t n = (1u << 20) - 40; n <= (1u << 20) + 24; ++n) if (n % 16 == std::size_t(flavour / 3 + ctx().worker * 7) % 16) { w.assign(n, char('a' + n % 26)); lex.get_string(widen(w)); lex.get_string(widen("t" + std::to_string(n))); ++T.strings; T.string_bytes += (long long)n; ++T.threshold; }
       T.pools += Inspector::arena_pools(arena);
    }
    if (flavour % 4 == 1) {
@@ -184,7 +188,7 @@ static void body(Ctx& C)
       if (C.total_viols >= 12 && i >= 3) { C.count("stopped_early_after_repeated_violations"); break; }
    }
    C.count("factory_calls", T.factory_calls); C.count("strings_interned", T.strings); C.count("string_bytes", T.string_bytes); C.count("string_pools_at_destruction", T.pools);
-   C.count("printed_bytes", T.printed_bytes); C.count("extra_units_and_module_units", T.units); C.count("nested_regions", T.regions); C.count("program_steps", T.steps);
+   C.count("printed_bytes", T.printed_bytes); C.count("extra_units_and_module_units", T.units); C.count("nested_regions", T.regions); C.count("program_steps", T.steps); C.count("strings_at_allocator_threshold_lengths", T.threshold);
    for (auto k : { "lexicon_lives", "factory_calls", "strings_interned", "string_pools_at_destruction", "printed_bytes", "extra_units_and_module_units", "nested_regions", "program_steps" }) C.need(k);
    if (!valgrind_mode) { C.need("byte_accounting_checks"); C.need("lsan_checks"); }
    C.sample(J().s("kind", "lexicon-life").s("flavour", "sweep + generated program + strings over 3 pools + oversize words").str());
